@@ -66,6 +66,15 @@ func (t *Tagger) createTag(repo *git.Repository, version string) error {
 		return nil
 	}
 	majorVersion := strings.Split(version, ".")[0]
+	// Both tags or none: if the second reference can't be written (for
+	// example because a tag named "v3/something" makes "refs/tags/v3" a
+	// directory), put back what was changed for the first.
+	var undo []func()
+	rollback := func() {
+		for i := len(undo) - 1; i >= 0; i-- {
+			undo[i]()
+		}
+	}
 	for _, v := range []string{version, majorVersion} {
 		// Overwrite the tag reference instead of deleting and re-creating it:
 		// deleting a tag that lives in packed-refs makes go-git rewrite that
@@ -91,8 +100,15 @@ func (t *Tagger) createTag(repo *git.Repository, version string) error {
 			return errors.New(err)
 		}
 		ref := plumbing.NewHashReference(plumbing.NewTagReferenceName(v), tagHash)
+		previous, previousErr := repo.Storer.Reference(ref.Name())
 		if err := repo.Storer.SetReference(ref); err != nil {
+			rollback()
 			return errors.New(err)
+		}
+		if previousErr == nil {
+			undo = append(undo, func() { _ = repo.Storer.SetReference(previous) })
+		} else {
+			undo = append(undo, func() { _ = repo.Storer.RemoveReference(ref.Name()) })
 		}
 	}
 
